@@ -1502,6 +1502,17 @@ fn generate(rng: &mut Rng) -> (Kind, Profile, Init, Vec<Ev>) {
         .as_ref()
         .map(|v| (v.s as f64).log2())
         .unwrap_or(0.0);
+    // one history in eight zooms persistently in one direction (no wandering
+    // back towards scale 1), so that it reaches the far ends of the scale
+    // band, where it is truncated
+    let drift: i32 = if rng.chance(0.125) { if rng.chance(0.5) { 1 } else { -1 } } else { 0 };
+    let bias = move |l: f64| -> f64 {
+        match drift {
+            1 => -100.0,
+            -1 => 100.0,
+            _ => l,
+        }
+    };
     let pick_mode = |rng: &mut Rng, last: DM| -> DM {
         if !is3 {
             DM::Pan
@@ -1537,7 +1548,7 @@ fn generate(rng: &mut Rng) -> (Kind, Profile, Init, Vec<Ev>) {
                         let scroll = if rng.chance(0.5) {
                             0.0
                         } else {
-                            gen_scroll(rng, log2s)
+                            gen_scroll(rng, bias(log2s))
                         };
                         log2s += scroll as f64 / 100.0;
                         Ev::Interact {
@@ -1550,7 +1561,7 @@ fn generate(rng: &mut Rng) -> (Kind, Profile, Init, Vec<Ev>) {
                         let scroll = if prof.no_zoom_in_drag && dragging {
                             0.0
                         } else {
-                            gen_scroll(rng, log2s)
+                            gen_scroll(rng, bias(log2s))
                         };
                         log2s += scroll as f64 / 100.0;
                         Ev::Zoom { scroll, pos: None }
@@ -1590,7 +1601,7 @@ fn generate(rng: &mut Rng) -> (Kind, Profile, Init, Vec<Ev>) {
                 {
                     0.0
                 } else {
-                    gen_scroll(rng, log2s)
+                    gen_scroll(rng, bias(log2s))
                 };
                 log2s += scroll as f64 / 100.0;
                 dragging = drag_on;
@@ -1628,7 +1639,7 @@ fn generate(rng: &mut Rng) -> (Kind, Profile, Init, Vec<Ev>) {
                         let scroll = if rng.chance(0.12) {
                             0.0
                         } else {
-                            gen_scroll(rng, log2s)
+                            gen_scroll(rng, bias(log2s))
                         };
                         log2s += scroll as f64 / 100.0;
                         let pos = if rng.chance(0.85) {
